@@ -72,7 +72,7 @@ def run_kani_unit(name, tier):
             cmd += ['--harness', h]
         env = dict(os.environ, CARGO_NET_OFFLINE='true', CARGO_TARGET_DIR=os.path.join(S, 'target'))
         R['cmd'] = 'CARGO_NET_OFFLINE=true ' + ' '.join(cmd) + f'   (in a scratch copy of /repo with units/{name}/{unit.HARNESS_FILE} appended to {unit.TARGET})'
-        to = int(os.environ.get('VERIF_KANI_TIMEOUT', '2400'))
+        to = int(os.environ.get('VERIF_KANI_TIMEOUT', '5400'))
         try:
             p = subprocess.run(cmd, cwd=S, env=env, capture_output=True, text=True, timeout=to)
             out = p.stdout + '\n' + p.stderr
